@@ -24,6 +24,7 @@ func c06Spaces(tier string) []pairLeg {
 		add("A4cont", Arr(4, "cont"))
 		add("U5", noVoid(U(5)))
 		add("deep", Deep(true))
+		add("mixed", Mixed())
 		add("E3", EditStates(3, 4000))
 	} else {
 		add("A6x123", Arr(6, "123"))
@@ -36,6 +37,7 @@ func c06Spaces(tier string) []pairLeg {
 		add("A3cont", Arr(3, "cont"))
 		add("U4", noVoid(U(4)))
 		add("deep", Deep(true))
+		add("mixed", Mixed())
 		add("E2", EditStates(2, 800))
 	}
 	return legs
@@ -59,10 +61,12 @@ func init() {
 				pairs(e, "c06", l.Name, l.A, l.B)
 			}
 		},
-		Run:      runC06,
-		Required: func(string) []string { return []string{"multi-hunk", "single-hunk", "recursed-into-containers", "scalar-array-level"} },
-		Assume:   []string{"optimal edit script size = len - LCS on canonical element strings", "the 'larger ones randomly' clause of the quantifier is replaced by complete enumeration over a binary alphabet up to length 8/10"},
-		Budget:   budget(4*time.Minute, 40*time.Minute),
+		Run: runC06,
+		Required: func(string) []string {
+			return []string{"multi-hunk", "single-hunk", "recursed-into-containers", "scalar-array-level"}
+		},
+		Assume: []string{"optimal edit script size = len - LCS on canonical element strings", "the 'larger ones randomly' clause of the quantifier is replaced by complete enumeration over a binary alphabet up to length 8/10"},
+		Budget: budget(4*time.Minute, 40*time.Minute),
 	})
 }
 
